@@ -12,6 +12,7 @@ A Validate run is abstracted to the list of its settings accesses in code order 
 traversal order is some such list, so the theorems over all lists cover them all.
 -/
 import KinModel.DocValidate
+import KinModel.Lemmas.C04Witness
 import KinModel.Gen.C04OptionState
 namespace KinModel.DocValidate
 
@@ -86,5 +87,78 @@ theorem runCalls_perCall : ∀ (calls : List (Bool × List Ev)) (sh : Mode),
   | (h, evs) :: r, sh => by
     simp only [runCalls, List.map_cons, runCall_perCall_snd, runCalls_perCall r sh]
     rw [runCall_perCall_fst h evs sh .plain]
+
+/-- every `set` of a run is the response reading and the record already holds it: every example check sees it -/
+theorem seen_all_res : ∀ (evs : List Ev), (∀ e ∈ evs, e = .read ∨ e = .set .res) → ∀ m ∈ seen .res evs, m = Mode.res
+  | [], _, m, hm => by simp [seen] at hm
+  | .read :: r, h, m, hm => by
+    simp only [seen, List.mem_cons] at hm
+    rcases hm with hm | hm
+    · exact hm
+    · exact seen_all_res r (fun e he => h e (List.mem_cons_of_mem _ he)) m hm
+  | .set x :: r, h, m, hm => by
+    have hx : x = .res := by
+      rcases h (.set x) (List.mem_cons_self ..) with h1 | h1
+      · cases h1
+      · cases h1; rfl
+    subst hx
+    simp only [seen] at hm
+    exact seen_all_res r (fun e he => h e (List.mem_cons_of_mem _ he)) m hm
+
+/-! ## F-C04-8: with options, the reading set by a response is seen by the parameter examples validated later
+
+The class in which the reading at every example check under `paths` is known without the traversal order inside
+`paths`: the call has options and validates examples (one record for the whole run), the document has no request body
+anywhere (every `set` of the run is the response reading), `components.responses` is not empty (root validation runs
+components before paths, so the record holds the response reading when `paths` is entered — `seen_all_res`), and its
+object examples are the `example` of parameters below `paths` that carry no `examples` map. -/
+
+mutual
+def nodesOf : Doc → List Doc
+  | .node k a kids => .node k a kids :: kidsNodes kids
+def kidsNodes : List (String × Doc) → List Doc
+  | [] => []
+  | (_, c) :: r => nodesOf c ++ kidsNodes r
+end
+
+def hasObjVal (d : Doc) : Bool := d.attrs.vals.any (fun kv => match kv.2 with | .obj _ => true | _ => false)
+
+/-- the object values a parameter gives as its `example` -/
+def objExampleKeys (d : Doc) : List (List String) :=
+  d.attrs.vals.filterMap (fun kv => if kv.1 = "example" then (match kv.2 with | .obj ks => some ks | _ => none) else none)
+
+def stripObjVals (d : Doc) : Doc :=
+  .node d.kind { d.attrs with vals := d.attrs.vals.filter (fun kv => match kv.2 with | .obj _ => false | _ => true) } d.kids
+
+def leakClass (hasOpts : Bool) (o : Opts) (d : Doc) : Bool :=
+  hasOpts && !o.exDisabled &&
+  (nodesOf d).all (fun n => n.kind != .requestBody) &&
+  (d.kidsAt "components").any (fun c => c.hasKid "responses") &&
+  (d.kidsAt "components").all (fun c => (nodesOf c).all (fun n => !hasObjVal n)) &&
+  (nodesOf d).all (fun n => !hasObjVal n || (n.kind = .parameter && !n.attrs.flag "hasExamples" &&
+     n.attrs.vals.all (fun kv => match kv.2 with | .obj _ => kv.1 = "example" | _ => true))) &&
+  (nodesOf d).any hasObjVal
+
+/-- the local rules inside the class: a parameter's object example is read as a response -/
+def localOKres (T : Table) (o : Opts) (d : Doc) (vs : List Bool) : Bool :=
+  if d.kind = .parameter && hasObjVal d then
+    localOK T o (stripObjVals d) vs &&
+      (match schemaAttrsAt d with
+       | some a => (objExampleKeys d).all (fun ks => acceptsObj .res a ks != .no)
+       | none => true)
+  else localOK T o d vs
+
+/-- model of `(*T).Validate` with options on a document of the class -/
+def validateRes (T : Table) (o : Opts) (d : Doc) : Bool := descend (localOKres T o) (active T o) d
+
+/-- F-C04-8 witness: `components.responses.R`, `/p` get with query parameter `cred` (schema `aSecret`) whose example is `v` -/
+def W.dLeak (v : Val) : Doc :=
+  .node .root { strs := [("openapi", "3.0.3")] }
+    [("components", .node .components {} [("responses", .node .responseRef { strs := [("key", "R")], flags := ["resolved"] } [("value", W.plainResponse)])]),
+     ("info", W.info),
+     ("paths", .node .paths {} [("pathItems", W.pathItem "/p" [W.op
+        [.node .parameterRef { flags := ["resolved"] }
+          [("value", .node .parameter { strs := [("name", "cred"), ("in", "query")], flags := ["hasSchema", "hasExample"], nums := [("content", 0)], vals := [("example", v)] }
+            [("schema", W.schemaRefTo (.node .schema W.aSecret []))])]] W.plainResponse])])]
 
 end KinModel.DocValidate
